@@ -346,6 +346,40 @@ def h_custom_format(eng, names, exps):
             eng.fail(f"custom:builtin-{builtin}-overwritten")
 
 
+def h_roundtrip_other_types(eng, names, exps):
+    """float and Decimal registries: str(q) and the plain-text formats parse back to an equal
+    quantity, with float, int and Decimal magnitudes and fractional exponents"""
+    import decimal
+
+    import pint
+
+    regs_ = {"float": regs.float_default()}
+    dec = getattr(h_roundtrip_other_types, "_dec", None)
+    if dec is None:
+        dec = h_roundtrip_other_types._dec = pint.UnitRegistry(non_int_type=decimal.Decimal)
+    regs_["Decimal"] = dec
+    for rname, ureg in regs_.items():
+        num = (lambda v: decimal.Decimal(str(v))) if rname == "Decimal" else (lambda v: v)
+        uc = ureg.UnitsContainer({n: (e if isinstance(e, int) else num(e)) for n, e in zip(names, exps)})
+        mags = [0.1, 1e-7, 12345.678, -2.5, 3, 1e22] if rname == "float" else [decimal.Decimal("0.1"), decimal.Decimal("1E-7"), decimal.Decimal("12345.678"), decimal.Decimal("-2.5"), 3]
+        for m in mags:
+            q = ureg.Quantity(m, uc)
+            # (the pretty format writes exponent notation as 1×10⁻⁷, which is not an input notation)
+            pretty_ok = all(isinstance(e, int) for e in exps) and "e" not in repr(m).lower()
+            for spec in ("", "D", "~D", "C", "~C") + (("P", "~P") if pretty_ok else ()):
+                text = format(q, spec)
+                try:
+                    back = ureg.parse_expression(text)
+                except Exception as ex:  # noqa: BLE001
+                    eng.fail(f"{rname}:not-parsed:{spec or 'default'}", detail=f"{text!r}: {type(ex).__name__}")
+                eng.prove(back.units == q.units, f"{rname}:units:{spec or 'default'}")
+                eng.prove(back.magnitude == q.magnitude, f"{rname}:magnitude:{spec or 'default'}:{m}")
+            eng.prove(ureg.Quantity(str(q)) == q, f"{rname}:Quantity(str(q)):{m}")
+        u = ureg.Unit(uc)
+        for spec in ("", "D", "~D", "C", "~C"):
+            eng.prove(ureg.parse_units(format(u, spec), as_delta=False) == u, f"{rname}:unit-roundtrip:{spec or 'default'}")
+
+
 def h_dimensionless(eng):
     ureg = regs.default(eng)
     u = ureg.Unit("")
@@ -396,5 +430,7 @@ def cases(tier, seed):
             out.append(Case("H09.e", f"{fmt}:{'*'.join(f'{n}^{e}' for n, e in zip(names, exps))}", M, "h_sort", {"names": names, "exps": exps, "fmt": fmt}, validate=1))
     for names, exps in [(["meter"], [1]), (["meter", "second"], [1, -2]), (["newton", "kelvin", "hour"], [2, -1, 1])]:
         out.append(Case("H09.f", "*".join(f"{n}^{e}" for n, e in zip(names, exps)), M, "h_custom_format", {"names": names, "exps": exps}, validate=1))
+    for names, exps in [(["meter"], [1]), (["meter", "second"], [1, -2]), (["meter", "second"], [0.5, -1.5]), (["newton", "kelvin", "hour"], [2, -1, 1]), (["gram", "meter"], [-1, 0.25]), (["second"], [-1])]:
+        out.append(Case("H09.b", "other-types:" + "*".join(f"{n}^{e}" for n, e in zip(names, exps)), M, "h_roundtrip_other_types", {"names": names, "exps": exps}, kind="conc"))
     out.append(Case("H09.c", "dimensionless", M, "h_dimensionless", {}, validate=1))
     return out
